@@ -239,6 +239,39 @@ func (s *c06state) runCLITier() {
 				check(format, "strace_read_eio."+rf.Kind, fmt.Sprintf("reading %s fails with EIO", rf.Path), r, []string{"input/output error"})
 				break
 			}
+			// a source file that is there when it is looked at (stat) and gone
+			// when it is opened: ENOENT from every openat(2) of that path,
+			// nothing else is touched. The changelog first (its reader treats
+			// "not found" as "empty"), then one other reference.
+			done := 0
+			for pass := 0; pass < 2 && done < 2; pass++ {
+				for _, rf := range w.Refs {
+					if (pass == 0) != (rf.Kind == "changelog") {
+						continue
+					}
+					if !contains(rf.Formats, format) || !rf.Single || rf.Kind == "key" || done >= 2 {
+						continue
+					}
+					src := filepath.Join(rt.Root, rf.Path)
+					if lst, err := os.Lstat(src); err != nil || !lst.Mode().IsRegular() {
+						continue
+					}
+					slog := filepath.Join(dir, "strace.log")
+					os.Remove(slog)
+					r = rt.runCLI(w, w.Config, format, target, []string{"-f", "-o", slog, "-e", "trace=openat,open", "-e", "inject=openat,open:error=ENOENT:when=1+",
+						// (strace compares the path argument as the process spells it)
+						"-P", src, "-P", rf.Path, "-P", "./" + rf.Path, "-P", "../" + rf.Path})
+					lb, _ := os.ReadFile(slog)
+					os.Remove(slog)
+					if !bytes.Contains(lb, []byte("(INJECTED)")) {
+						s.count("fault_not_reached", 1)
+						os.Remove(target)
+						continue
+					}
+					done++
+					check(format, "strace_open_enoent."+rf.Kind, fmt.Sprintf("%s is there when it is looked at but gone when it is opened (ENOENT from openat)", rf.Path), r, []string{"no such file"})
+				}
+			}
 		} else {
 			s.count("skipped.strace_missing", 1)
 		}
